@@ -736,6 +736,7 @@ func genLattice(a *Args, r *Rng, emit func(c *lcase), history func(base lcase, s
 	revErr := func(c *lcase) { c.Entry = "NVerifyBlob"; c.Sc.Rev = 2 }
 	revNilNil := func(c *lcase) { c.Entry = "Verify"; c.Sc.Rev = 6 }
 	revNilEntry := func(c *lcase) { c.Entry = "VerifyBlob"; c.Sc.Rev = 4 }
+	revNilServer := func(c *lcase) { c.Entry = "Verify"; c.Sc.Rev = 8 }
 	otherRepo := func(c *lcase) { c.Entry = "Verify"; c.OCI.Kind, c.OCI.NoneKind = 1, 1 }
 	otherRepoSkip := func(c *lcase) { c.Entry = "SkipVerify"; c.OCI.Kind, c.OCI.NoneKind = 1, 4 }
 	otherName := func(c *lcase) { c.Entry = "VerifyBlob"; c.Blob.Kind, c.Blob.NoneKind = 1, 1 }
@@ -750,7 +751,7 @@ func genLattice(a *Args, r *Rng, emit func(c *lcase), history func(base lcase, s
 	scripts := [][]func(c *lcase){
 		{metaErr, metaOK, metaErr, plain("Verify"), metaOK},
 		{notInstalled, metaOK, respErr, metaOK, tiFail, metaOK, metaNil, metaOK, respNil, metaOK},
-		{plain("Verify"), untrusted, plain("Verify"), storeErr, plain("VerifyBlob"), revoked, plain("Verify"), revErr, plain("NVerifyBlob"), revNilNil, plain("Verify"), revNilEntry, plain("VerifyBlob")},
+		{plain("Verify"), untrusted, plain("Verify"), storeErr, plain("VerifyBlob"), revoked, plain("Verify"), revErr, plain("NVerifyBlob"), revNilNil, plain("Verify"), revNilEntry, plain("VerifyBlob"), revNilServer, plain("Verify")},
 		{plain("SkipVerify"), otherRepoSkip, plain("SkipVerify"), otherRepo, plain("Verify"), otherName, plain("VerifyBlob"), plain("NVerify")},
 		{otherRepo, plain("NVerify"), otherName, plain("NVerifyBlob"), otherRepoSkip, plain("SkipVerify")},
 		{on("Verify", good), on("Verify", badSig), on("Verify", good), on("Verify", mism), on("Verify", good)},
@@ -884,6 +885,17 @@ func genLattice(a *Args, r *Rng, emit func(c *lcase), history func(base lcase, s
 				}
 				put(c)
 			}
+		}
+		// every error branch of GetVerificationLevel (the verifier ignores the error: the level must be nil)
+		for bk := 1; bk <= 7; bk++ {
+			c := lcase{Fam: "mutated-doc", Entry: entry, OCI: docCfg{Kind: 3, Level: "strict", BadKind: bk}, Blob: docCfg{Kind: 2, Level: "strict"}, PM: pmOK(), Impl: implCfg{Kind: 1}, Sc: okSc()}
+			if entry == "VerifyBlob" || entry == "NVerifyBlob" {
+				c.OCI, c.Blob = docCfg{Kind: 2, Level: "strict"}, docCfg{Kind: 3, Level: "permissive", Global: bk%2 == 0, BadKind: bk}
+			}
+			if entry == "NVerify" {
+				c.N = nreqCfg{Max: 2, Ref: 2, Items: []scCfg{okSc()}}
+			}
+			put(c)
 		}
 	}
 
